@@ -222,7 +222,23 @@ pub fn panic_site(loc: &str) -> String {
 }
 
 pub fn open_fds() -> usize {
-  std::fs::read_dir("/proc/self/fd").map(|d| d.count()).unwrap_or(0)
+  let under_sanitizer = slow_factor() > 1;
+  std::fs::read_dir("/proc/self/fd")
+    .map(|d| {
+      d.filter(|e| {
+        // a sanitizer runtime that prints a report starts an external symbolizer and keeps the pipes to it open:
+        // those are the monitor's descriptors, not the library's (rzmq and tokio open no pipes)
+        if !under_sanitizer {
+          return true;
+        }
+        match e.as_ref().ok().and_then(|e| std::fs::read_link(e.path()).ok()) {
+          Some(t) => !t.to_string_lossy().starts_with("pipe:"),
+          None => true,
+        }
+      })
+      .count()
+    })
+    .unwrap_or(0)
 }
 
 pub fn arc<T>(t: T) -> Arc<T> {
@@ -234,4 +250,14 @@ pub fn arc<T>(t: T) -> Arc<T> {
 /// so that the shard continues. Returns false if it panicked (records stay in the panic watch).
 pub fn guarded<F: Future<Output = ()>>(rt: &tokio::runtime::Runtime, f: F) -> bool {
   std::panic::catch_unwind(std::panic::AssertUnwindSafe(|| rt.block_on(f))).is_ok()
+}
+
+/// Wall-clock bounds used as verdicts are multiplied by VH_SLOW (set by the driver for sanitizer flavours, which
+/// slow the program down 5-20x); default 1.
+pub fn slow_factor() -> u32 {
+  static F: std::sync::OnceLock<u32> = std::sync::OnceLock::new();
+  *F.get_or_init(|| std::env::var("VH_SLOW").ok().and_then(|v| v.parse().ok()).unwrap_or(1).max(1))
+}
+pub fn scaled(d: Duration) -> Duration {
+  d * slow_factor()
 }
